@@ -44,7 +44,10 @@ def run(ctx):
     ctx.extra["focus_histories"] = len(foc)
     beh += foc
     if not q:
-        beh += ctx.tlc("LinkMC", "g3.cfg", extra_files=files, design=False, tag="gen:depth3", timeout=3000)["emitted"]
+        g3 = ctx.tlc("LinkMC", "g3.cfg", extra_files=files, design=False, tag="gen:depth3", timeout=3000)["emitted"]
+        # 1.2 million histories of depth 3: one fifth per run (the slice rotates with the seed) keeps the replay within its budget
+        ctx.extra["depth3_histories"] = {"generated": len(g3), "replayed_slice": "%d of 5" % (ctx.seed % 5)}
+        beh += g3[ctx.seed % 5::5]
     beh += ctx.tlc("LinkMC", "sim.cfg", extra_files=files, design=False, tag="sim", workers=1,
                    simulate="num=%d" % (1500 if q else 40000), depth=14, timeout=3000)["emitted"]
     ctx.extra["histories"] = {"exhaustive_depth2": n2, "total": len(beh)}
